@@ -352,6 +352,24 @@ def lifecycle_check(prop, tier):
     run.sample({"trace_event": next((e for e in groups.get(1, []) if e["ev"] == "Write"), None)})
     if prop in ("C02", "C03", "C12"):
         placement_part(run, prop, tier)
+    if prop == "C12":
+        # many cycles in one process
+        ncyc = 3000 if tier == "quick" else 100000
+        cs = [{"id": 1, "mode": "cycles", "cycles": ncyc, "full": 150, "nf": 4, "pool": "rust"}]
+        cg, co, _ = vlib.run_harness("lifecycle", cs, "cycles_C12", timeout=3000)
+        cfgc = tlc.make_cfg("Trace_Api", {"Props": '{"C12", "ALL"}'}, "Trace_Api_C12c")
+        tvc = tlc.validate_traces("Trace_Api", cfgc, [(1, cg.get(1, []))], WORK, "trace_cycles", timeout=3000)
+        run.traces += len(tvc["accepted"])
+        run.states += tvc["states"]
+        run.transitions += tvc["transitions"]
+        evs = cg.get(1, [])
+        run.extra["cycles"] = {"cycles": ncyc, "events": len(evs), "accepted": 1 in tvc["accepted"]}
+        run.note_case("cycles %d" % ncyc)
+        if 1 not in tvc["accepted"]:
+            reached, total = tvc["progress"][1]
+            fe = evs[reached] if reached < len(evs) else None
+            run.violation("C12 cycles first_unmatched=%s" % (fe["ev"] if fe else None),
+                          {"trace_rejected_at": reached, "first_unmatched_event": fe, "events": evs[max(0, reached - 8):reached + 2]})
     return run.finish()
 
 
@@ -518,6 +536,37 @@ def placement_check(prop, tier):
                            "events": [e for e in evs if e["ev"] in ("Place", "Installed", "Called", "Dropped", "ChildExit", "Neighbour")]})
     for sc in live[:3]:
         run.sample({"placement": sc, "installed": next((e for e in groups.get(sc["id"], []) if e["ev"] == "Installed"), None)})
+    if prop == "C01":
+        # simulated addresses (patch_amd64.rs against a simulated memory): entry displacements beyond +/-2 GiB (the
+        # 12-byte entry patch of the Windows-style window) and fakes in the upper half of the 64-bit range
+        rnd = vlib.rnd("x64sim")
+        M31 = 1 << 31
+        cases = []
+        for src in (0x400000, 0x7f0000001230, 0x10000, 0x7ffffffff000 - 0x5000):
+            for dt in [M31 + k for k in range(-6, 7)] + [-M31 + k for k in range(-6, 7)] + [4096, -4096, 1 << 33, -(1 << 33), 1 << 40, (1 << 46)]:
+                tramp = src + dt
+                if tramp < 4096 or tramp >= (1 << 47):
+                    continue
+                for fake in (tramp + 5 + M31, tramp + 5 + M31 - 1, tramp + 5 - M31, tramp + 5 - M31 - 1, 0xFFFFFFFFFFFFF000, 0x8000000000000000,
+                             0x7FFFFFFFFFFFFFFF, rnd.getrandbits(64), 0x1000):
+                    fake &= (1 << 64) - 1
+                    if abs(fake - tramp) < 64 or abs(fake - src) < 64:
+                        continue
+                    cases.append({"isa": "x64-sim", "kind": "jump", "src": src, "tramp": tramp, "fake": fake, "v": 0})
+            for v in (0, 1):
+                cases.append({"isa": "x64-sim", "kind": "bool", "src": src, "tramp": src + (1 << 20), "fake": 0, "v": v})
+        if tier == "quick":
+            cases = cases[::3]
+        for c in cases:
+            run.note_case("x64-sim %x %x %x" % (c["src"], c["tramp"], c["fake"]))
+
+        def key(fe):
+            if fe is None:
+                return "C01 x64-sim harness-died"
+            d = int.from_bytes(bytes(fe["tramp"]), "little") - int.from_bytes(bytes(fe["src"]), "little")
+            return "C01 x64-sim outcome=%s entry_disp=%+#x fake=%#x" % (fe["outcome"], d, int.from_bytes(bytes(fe["fake"]), "little"))
+        g, nev, unk = sim_validate(run, "C01", cases, 200, key)
+        run.extra["x64_sim_cases"] = {"cases": len(cases), "validated": nev, "unknown": unk}
     return run.finish()
 
 
